@@ -173,12 +173,12 @@ Definition prune (rm_no_e : bool) (l : list A) : res A :=
 Inductive sel : Type :=
 | Selected (c : A)
 | NoSuitable        (* RuntimeError: conformers present but none has an energy *)
-| Raised.           (* NoConformers: from remove_no_energy, or from @requires_conformers (utils.py:395-410)
+| Raised.           (* NoConformers: from remove_no_energy, or from @requires_conformers (utils.py:399-413)
                        on _set_lowest_energy_conformer when no conformer is left *)
 
 End Conformers.
 
-(* species.py:1456-1520 find_lowest_energy_conformer, the selection part.  The ORDER of the calls is
+(* species.py:1454-1520 find_lowest_energy_conformer, the selection part.  The ORDER of the calls is
    part of the model:
      :1499  self.conformers.optimise(method=lmethod)           -> energies en_l, geometries giving RMSD d
      :1500  self.conformers.prune(remove_no_energy=True)       (default e_tol / rmsd_tol / n_sigma)
